@@ -348,8 +348,39 @@ class LegSpace:
                 if not isinstance(e.orelse, ast.Name) else None
         return join(a, b)
 
+    def count_space(self, e):
+        """`T.ndim` / `len(T.mfs)` count meta legs, `T.ndim_n` / `len(T.trans|hfs|struct.s)` count native legs -> (space, T) or None"""
+        tx = A.text(e)
+        for suf, sp in ((".ndim_n", BOTH), (".ndim", META)):
+            if tx.endswith(suf) and tx[: -len(suf)].isidentifier():
+                return sp, tx[: -len(suf)]
+        if tx.startswith("len(") and tx.endswith(".mfs)") and tx[4:-5].isidentifier():
+            return META, tx[4:-5]
+        for suf in (".trans)", ".hfs)", ".struct.s)"):
+            if tx.startswith("len(") and tx.endswith(suf) and tx[4:-len(suf)].isidentifier():
+                return BOTH, tx[4:-len(suf)]
+        return None
+
     def ty_BinOp(self, e, st):
         l, r = self.ty(e.left, st), self.ty(e.right, st)
+        if isinstance(e.op, (ast.Mod, ast.Add)) and isinstance(l, Idx) and l.ten != "*":
+            # normalisation of a possibly negative index: the count added / taken modulo is the number of legs of the index's own space
+            cs = self.count_space(e.right)
+            if cs is not None and cs[1] == l.ten:
+                meta_idx = l.space in (META, USER)
+                nat_idx = l.space in (LNAT, NAT, BOTH)
+                ok = None
+                if meta_idx:
+                    ok = cs[0] == META
+                elif nat_idx:
+                    ok = cs[0] == BOTH
+                if self._record and ok is not None:
+                    self.sinks.append((e, META if cs[0] == META else BOTH, l, ok, f"normalisation `{A.short(e, 40)}`"))
+                    if ok is False:
+                        self.findings.append(Finding(e, "L1", f"`{A.short(e, 50)}` normalises a {l.space} index of `{l.ten}` with the number of "
+                                                     f"{'native' if cs[0] == BOTH else 'meta'} legs (`{A.text(e.right)}`): with meta-fused legs the two counts differ and "
+                                                     f"a negative position lands on another leg",
+                                                     {"index": repr(l), "count": A.text(e.right)}))
         if isinstance(e.op, (ast.Mod, ast.Add, ast.Sub, ast.Mult, ast.FloorDiv)):
             if isinstance(l, Idx) and (r is None or r == l):
                 return l
@@ -565,6 +596,12 @@ class LegSpace:
             if isinstance(t, Idx):
                 return t            # range(axis): positions before `axis` in the same space
             return None
+        if attr == "index" and isinstance(e.func, ast.Attribute) and len(args) == 1:
+            # X.trans.index(p): the *inverse* permutation -- takes a native position, returns the logical one
+            bf = self.base_field(e.func.value, st)
+            if bf is not None and bf[0] == "trans":
+                self.sink(args[0], NAT, bf[1], st, f"`{A.short(e, 50)}` (inverse of the pending permutation: position of a native leg)")
+                return Idx(LNAT, bf[1])
         if nm == "_unpack_axes" and args:
             m = A.text(args[0])
             ten = m[: -len(".mfs")] if m.endswith(".mfs") else None
